@@ -1,7 +1,7 @@
 (* Proofs/Bolt.v (codec) - bolt / boltv2 decoder: pure characterisation of the outcome, totality, bounds on
    reads and allocations, prefix stability (C07/C08).  The C01 lemmas are in Proofs/BoltEnc.v. *)
 From Coq Require Import List NArith Lia ZifyBool ZifyNat ZifyN Bool.
-From MV Require Import Lib.Bytes Lib.Dec Lib.Seg Gen.ProtoConsts Gen.CodecSrc Model.HeaderKV Model.Bolt Proofs.HeaderKV.
+From MV Require Import Lib.Bytes Lib.Dec Lib.Seg Model.CodecParams Model.HeaderKV Model.Bolt Proofs.HeaderKV.
 Import ListNotations.
 Open Scope N_scope.
 
@@ -82,7 +82,7 @@ Lemma decode_frame_res chk L ow v : wf_layout L = true ->
 Proof.
   intros W. wf_split W. unfold bolt_decode_frame, bolt_pure. fold (vlen v).
   destruct (vlen v <? l_hlen L) eqn:E1; [reflexivity|].
-  assert (Hh : l_hlen L <= vlen v) by lia.
+  assert (Hh : l_hlen L <= vlen v) by (clear - E1; lia).
   rewrite res_bind, (rdf_res v (l_hlen L)) by assumption.
   rewrite res_bind, (rdf_res v (l_hlen L)) by assumption.
   rewrite res_bind, (rdf_res v (l_hlen L)) by assumption.
@@ -95,7 +95,7 @@ Proof.
   rewrite res_bind, (rdf_opt_res v (l_hlen L)) by assumption.
   rewrite res_bind, (rdf_opt_res v (l_hlen L)) by assumption.
   rewrite res_bind. cbn [alloc res fst].
-  rewrite res_bind, rd_sub_res by lia.
+  rewrite res_bind, rd_sub_res by (clear - E2; lia).
   destruct (fst (if 0 <? fld (vb v) (l_header L) then _ else _)); reflexivity.
 Qed.
 
@@ -103,7 +103,7 @@ Lemma decode_frame_bounded chk L ow v : wf_layout L = true -> bounded (vlen v) (
 Proof.
   intros W. wf_split W. unfold bolt_decode_frame.
   destruct (vlen v <? l_hlen L) eqn:E1; [apply bounded_need_more|].
-  assert (Hh : l_hlen L <= vlen v) by lia.
+  assert (Hh : l_hlen L <= vlen v) by (clear - E1; lia).
   apply bounded_bind; [eapply rdf_bounded; eassumption|intros cl _].
   apply bounded_bind; [eapply rdf_bounded; eassumption|intros hl _].
   apply bounded_bind; [eapply rdf_bounded; eassumption|intros ctl _].
@@ -115,8 +115,8 @@ Proof.
   apply bounded_bind; [eapply rdf_bounded; eassumption|intros ? _].
   apply bounded_bind; [eapply rdf_opt_bounded; eassumption|intros ? _].
   apply bounded_bind; [eapply rdf_opt_bounded; eassumption|intros ? _].
-  apply bounded_bind; [apply bounded_alloc; lia|intros _ _].
-  apply bounded_bind; [apply rd_sub_bounded; lia|intros raw _].
+  apply bounded_bind; [apply bounded_alloc; clear - E2; lia|intros _ _].
+  apply bounded_bind; [apply rd_sub_bounded; clear - E2; lia|intros raw _].
   destruct (fst (if 0 <? hl then _ else _)); try apply bounded_ret; [apply bounded_panic|apply bounded_oof].
 Qed.
 
@@ -149,11 +149,11 @@ Proof.
   rewrite !(fld_app b e (l_hlen L)) by assumption.
   rewrite !(fld_opt_app b e (l_hlen L)) by assumption.
   rewrite blen_app.
-  replace (blen b + blen e <? l_hlen L) with false by lia.
-  replace (blen b <? l_hlen L) with false by lia.
-  replace (blen b + blen e <? l_hlen L + fld b (l_class L) + fld b (l_header L) + fld b (l_content L)) with false by lia.
-  replace (blen b <? l_hlen L + fld b (l_class L) + fld b (l_header L) + fld b (l_content L)) with false by lia.
-  rewrite (sub_app b e 0) by lia. reflexivity.
+  replace (blen b + blen e <? l_hlen L) with false by (clear - H1 H2; lia).
+  replace (blen b <? l_hlen L) with false by (clear - H1 H2; lia).
+  replace (blen b + blen e <? l_hlen L + fld b (l_class L) + fld b (l_header L) + fld b (l_content L)) with false by (clear - H1 H2; lia).
+  replace (blen b <? l_hlen L + fld b (l_class L) + fld b (l_header L) + fld b (l_content L)) with false by (clear - H1 H2; lia).
+  rewrite (sub_app b e 0) by (clear - H1 H2; lia). reflexivity.
 Qed.
 
 Lemma bolt_pure_total L ow b : bolt_pure true L ow b <> Panic /\ bolt_pure true L ow b <> OutOfFuel.
